@@ -511,6 +511,7 @@ def monitor(sc, irows):
     fresh = tuple(sc.init) == (0, 0, 0)
     wf = True
     logins = 1 if sc.init[1] != 0 else 0
+    shaken = sc.init[0] != 0
     for k, m in enumerate(sc.msgs):
         if k >= len(irows) or irows[k] is None:
             break
@@ -529,6 +530,14 @@ def monitor(sc, irows):
         names = [n for n, _ in r["replies"]]
         effect = (r["subs"] != subs) or r["stored"] != "-" or bool(r["data"])
         ver, uid, lvl = st
+        # handshake as the CLIENT saw it: a {hi} answered with a 2xx reply (independent of the session's own fields)
+        if sel == "hi" and any(n in ("created201", "ok200") for n in names):
+            shaken = True
+        if not shaken and ver != 0 and sel != "hi":
+            ok = (not effect) and after == st and (names == [] if (sel == "note" and not has_as) else
+                                                   (len(names) == 1 and names[0] in ("outofseq409", "authreq401", "denied403", "malf400")))
+            if not ok:
+                res.append(("pre-hi-refused", k, "no {hi} was answered with success on this session, yet {%s} got %s, state %s -> %s, effect=%s" % (sel, names, st, after, effect)))
         if ver == 0 and sel != "hi":
             ok = after == st and not effect
             # the property demands a refusal; which 4xx is the code's choice (the exact code is the model's business)
